@@ -6,19 +6,19 @@ from ..common.lib import libcall
 from ..common.outcome import Outcome, require
 
 ID = "C11"
-FIVE = ["euclidean", "squared_euclidean", "average_euclidean", "log_euclidean", "log_squared_euclidean"]
+FIVE = ["squared_euclidean", "euclidean", "average_euclidean", "log_euclidean", "log_squared_euclidean"]
 RULE = (
     "(a) tie-free training set + query pool by construction (integer coordinates / 8, all pairwise squared distances over the union distinct), >= 2 classes, a drawn permutation of the training order; "
-    "the five mutually monotone identifiers euclidean, squared_euclidean, average_euclidean, log_euclidean, log_squared_euclidean. Premise verified per case on the five evaluated matrices "
-    "(all off-diagonal values distinct, identical strict order), discarded otherwise. Oracle (metamorphic): permuted run: cost (exact), prototype status and assigned label of every sample and all "
+    "the five mutually monotone identifiers euclidean, squared_euclidean, average_euclidean, log_euclidean, log_squared_euclidean. The construction makes the premise hold with a wide margin, so on the evaluated matrices each of the five identifiers must give distinct symmetric values in the same strict order (a failure is reported: the identifier is then not a strictly increasing transform). "
+    "Oracle (metamorphic): permuted run: cost (exact), prototype status and assigned label of every sample and all "
     "predictions equal the base run; rescaled runs: prototype set, assigned labels, predictions equal across the five metrics and costs have the same rank order. "
     "(b) pre-computed tie-free or NEARLY tied matrices (distinct weights within a relative 1e-7..1e-5): the permuted run presents the same matrix with I_train = permutation; same per-sample comparison. "
     "non-trivial: the permutation moves the sample at index 0 and a prototype, and some query's arg-min sample is not a prototype; distinct by case hash"
 )
 ASSUMPTIONS = ["premise (tie-free, same order type under the five transforms) is checked on the evaluated float matrices; cases failing it are discarded and counted"]
 BUDGET = {
-    "quick": {"examples": 1200, "shards": 8, "min_nontrivial": 150},
-    "thorough": {"examples": 20000, "shards": 16, "min_nontrivial": 2500, "max_wall": 3000},
+    "quick": {"examples": 3200, "shards": 16, "min_nontrivial": 150},
+    "thorough": {"examples": 80000, "shards": 16, "min_nontrivial": 2500, "max_wall": 3000},
 }
 
 
@@ -108,13 +108,18 @@ def check_case(case):
     base_rank = None
     for n in FIVE:
         vals = [mats[n][i][j] for i, j in pairs]
-        if len(set(vals)) != len(vals) or any(mats[n][i][j] != mats[n][j][i] for i, j in pairs):
-            return Outcome.discard("premise:ties_or_asymmetry_under_" + n)
+        # the construction guarantees distinct, exactly representable squared distances with gaps far above rounding, so each of
+        # the five identifiers must give distinct symmetric values in the same strict order: anything else means the identifier is
+        # not a strictly increasing transform of the Euclidean distance (the premise of the statement, broken by the library)
+        require(all(mats[n][i][j] == mats[n][j][i] for i, j in pairs), "rescaling:symmetric", lambda: "%s is not symmetric on %r" % (n, X))
+        if n == "squared_euclidean" and len(set(vals)) != len(vals):
+            return Outcome.discard("generator:not_tie_free")
+        require(len(set(vals)) == len(vals), "rescaling:strictly_increasing_transform", lambda: "%s produces tied values on data whose squared Euclidean distances are all distinct: X=%r" % (n, X))
         rk = _rank(vals)
         if base_rank is None:
             base_rank = rk
-        elif rk != base_rank:
-            return Outcome.discard("premise:order_type_differs_under_" + n)
+        else:
+            require(rk == base_rank, "rescaling:strictly_increasing_transform", lambda: "%s orders the pairs differently from euclidean on X=%r" % (n, X))
     runs = {n: _fit(n, tr, Y, qs) for n in FIVE}
     # --- permutation invariance (each of the five metrics)
     trp = [tr[i] for i in perm]
